@@ -43,6 +43,20 @@ class SymWorld:
     def tree(self, t, col=0):
         return to_tree(t.cols[col], self.ctx)
 
+    def lift(self, p, like):
+        """a parameter as a column (symbolically it already is one)"""
+        return p
+
+    def param_vec(self, name, k):
+        """a (k,)-shaped tensor of parameters (broadcast over rows)"""
+        from .sym import SymT as _S
+        cols = []
+        for j in range(k):
+            self.ctx.var(f'{name}{j}')
+            self.params.append(f'{name}{j}')
+            cols.append(Node('var', (), f'{name}{j}'))
+        return _S(cols)
+
 
 class SmoothFn:
     """concrete smooth function of k columns with all mixed partials available through autograd"""
@@ -84,6 +98,13 @@ class RealWorld:
         if name not in self.values:
             self.values[name] = self.rng.uniform(lo, hi)
         return self.values[name]
+
+    def lift(self, p, like):
+        return torch.full_like(like, float(p), requires_grad=True)
+
+    def param_vec(self, name, k):
+        vals = [self.param(f'{name}{j}') for j in range(k)]
+        return torch.tensor(vals)
 
     def net(self, name, n_in, n_out=1):
         if name not in self.nets:
